@@ -31,7 +31,7 @@ from vf.c11_lib import (
     BIGPOW_NC_MAX, NotInFragment, bigpow, box_for, expand_nf, flatten_nf, float_trees, fold_nf,
     history_pool,
     in_collector_fragment, is_closed, is_polynomial, is_rational, max_exponent, nc_eval,
-    param_inputs, poly4, rename, rf_chain4, rf_depth2, rf_depth3, rf_value, xeval,
+    param_inputs, poly4, powpow, rename, rf_chain4, rf_depth2, rf_depth3, rf_value, xeval,
 )
 from vf.envs import SPECIAL_NAMES, base_env
 from vf.exact import NCPoly
@@ -502,7 +502,10 @@ class C11(Check):
             "(thorough 4..13) of four small sums and every power 10..40 (thorough ..66) of x+1, "
             "sums/products with float literals of boundary magnitude (2**-60, 2**-20, thorough "
             "also 2**30 and denormals) on which float arithmetic is exact (rf-floats), "
-            "and (rf-params) sums of monomials written with explicit power factors of both "
+            "powers of powers (v**a)**b, (v**a * w)**b [thorough also three levels] as terms and "
+            "as factors of terms next to plain terms, times a binomial and summed pairwise "
+            "(rf-powpow), and (rf-params) sums of monomials written with explicit power factors "
+            "of both "
             "variables, "
             "their squares and products with a binomial, x TermCollector and distribute under "
             "every parameter subset of {x, y}; the other rf families "
@@ -567,6 +570,7 @@ class C11(Check):
             ("rf-poly4", lambda: (("rf", s) for s in poly4(tier))),
             ("rf-bigpow", lambda: (("rf", s) for s in bigpow(tier))),
             ("rf-floats", lambda: float_trees(tier)),
+            ("rf-powpow", lambda: (("rf", s) for s in powpow(tier))),
             ("rf-params", lambda: (("rfp", s) for s in param_inputs(tier))),
             ("rf-history", lambda: self.gen_history(tier)),
             ("fa-depth2", lambda: (("fa", s) for s in gen.depth2(EVAL_CTORS, lv))),
